@@ -240,12 +240,18 @@ def check(ctx):
     post = ind.methods.get('__post_init__')
     n_pref = 0
     if post is not None:
-        for a in [x for x in iter_own_nodes(post.node) if isinstance(x, ast.Assign)]:
-            if ast.unparse(a.targets[0]) != 'self._bulletized_indent':
+        # judged on the views of __post_init__ with a bullet list, for space and for tab indentation (specialisation: which
+        # helpers build the prefix does not matter)
+        from .shared import post_init_views
+        for label, view in post_init_views(ctx).items():
+            if not label.endswith('bullets-True'):
                 continue
-            n_pref += 1
-            ok, why = _starts_with_glyph(ctx, post, a.value)
-            run.add('C19.every-line', tg.name, post.qualname, a, ok, why, node=a)
+            for a in [x for x in view.node.body if isinstance(x, ast.Assign)]:
+                if ast.unparse(a.targets[0]) != 'self._bulletized_indent':
+                    continue
+                n_pref += 1
+                ok, why = _starts_with_glyph(ctx, view, a.value)
+                run.add('C19.every-line', tg.name, post.qualname, f'{label}: {ast.unparse(a)[:70]}', ok, why, node=a)
     if n_pref < 2:
         run.error('C19.every-line', tg.name, 'Indentizer.__post_init__', 'bullet prefix assignments',
                   f'{n_pref} assignments of _bulletized_indent recognised (2 confirmed by hand)')
